@@ -31,8 +31,10 @@ pub fn compress(c: &mut Case, fmt: Fmt, input: &[u8]) -> Option<Result<Vec<u8>, 
         (Fmt::Lz13, true) => CompressionFormat::LZ13(LZ13CompressionFormat {}).compress(input).map_err(|e| e.to_string()),
     };
     let what = if fmt == Fmt::Lz10 { "LZ10 compress" } else { "LZ13 compress" };
-    // small inputs (and every fourth case) are compressed twice, under two heap poison bytes
-    let r = if input.len() <= 4096 || c.idx % 4 == 0 { c.lib_stable(what, call) } else { c.lib(what, call) };
+    // small inputs (and every fourth case, unless the input is larger than 1 MiB - the multi-megabyte
+    // inputs of the thorough tier take most of the per-case CPU budget once) are compressed twice,
+    // under two heap poison bytes
+    let r = if input.len() <= 4096 || (c.idx % 4 == 0 && input.len() <= (1 << 20)) { c.lib_stable(what, call) } else { c.lib(what, call) };
     if input.len() <= 2048 {
         // the other public entry point must give the very same bytes
         let other = c.lib("compress (other entry point)", || match (fmt, !via_enum) {
